@@ -20,6 +20,9 @@ type dlItem struct {
 	Caller    string `json:"caller"` // none | deadline | cancel
 	CallerMs  int64  `json:"caller_ms"`
 	DeliverMs int64  `json:"deliver_ms"` // -1: never delivered
+	// JoinMs > 0: the measured lookup is a SECOND caller of the same name that starts JoinMs after a first caller
+	// (which has no caller deadline); DeliverMs stays relative to the first caller's start
+	JoinMs int64 `json:"join_ms"`
 }
 
 type dlCase struct {
@@ -72,6 +75,14 @@ func init() {
 						time.Sleep(time.Duration(it.DeliverMs) * time.Millisecond)
 						m.UpdateResource(xdsresource.ClusterType, map[string]xdsresource.Resource{"c1": stampedResource("cds", 7)}, "v1")
 					}()
+				}
+				if it.JoinMs > 0 {
+					// the first caller: creates the notifier and waits out its own fetch timeout
+					go func() {
+						defer func() { recover() }()
+						m.Get(context.Background(), xdsresource.ClusterType, "c1")
+					}()
+					time.Sleep(time.Duration(it.JoinMs) * time.Millisecond)
 				}
 				done := make(chan getRet, 1)
 				start := time.Now()
